@@ -432,6 +432,77 @@ def gen_predictor_dispatch(out, tmod):
         out.append(f"def PRED_{nm}_DEFAULTS : Nat × Nat × Nat := ({d['Colors']}, {d['Columns']}, {d['BitsPerComponent']})\n")
 
 
+def gen_cpython_a85(out):
+    """base64.a85decode of the RUNNING interpreter (the function ascii85decode calls): defaults of its options,
+    the padding trick, the digit range, group length, radix/offset, the `z` group and the final padding."""
+    import base64
+    import inspect
+    import textwrap
+    try:
+        src = textwrap.dedent(inspect.getsource(base64.a85decode))
+    except (OSError, TypeError) as e:
+        raise P.Untranslatable("base64.a85decode has no Python source: %r" % (e,))
+    fn = ast.parse(src).body[0]
+    if not isinstance(fn, ast.FunctionDef) or fn.name != "a85decode":
+        raise P.Untranslatable("base64.a85decode: unexpected source")
+    kw = {a.arg: d for a, d in zip(fn.args.kwonlyargs, fn.args.kw_defaults)}
+    if sorted(kw) != ["adobe", "foldspaces", "ignorechars"]:
+        raise P.Untranslatable("base64.a85decode: options " + repr(sorted(kw)))
+    out.append("\n-- CPython base64.a85decode (source of the running interpreter)\n")
+    out.append(f"def A85_FOLDSPACES : Bool := {'true' if P.literal(kw['foldspaces']) else 'false'}\n")
+    out.append(f"def A85_ADOBE : Bool := {'true' if P.literal(kw['adobe']) else 'false'}\n")
+    out.append("def A85_IGNORECHARS : Bytes := " + P.lean_bytes(P.literal(kw["ignorechars"])) + "\n")
+    loops = [x for x in fn.body if isinstance(x, ast.For)]
+    if len(loops) != 1:
+        raise P.Untranslatable("base64.a85decode: one main loop expected")
+    loop = loops[0]
+    it = loop.iter          # b + b'u' * 4
+    if not (isinstance(it, ast.BinOp) and isinstance(it.op, ast.Add) and isinstance(it.right, ast.BinOp)
+            and isinstance(it.right.op, ast.Mult) and isinstance(it.right.left, ast.Constant)
+            and isinstance(it.right.right, ast.Constant)):
+        raise P.Untranslatable("base64.a85decode: `for x in b + b'u' * 4` expected")
+    out.append("def A85_PAD : Bytes := " + P.lean_bytes(it.right.left.value * it.right.right.value) + "\n")
+    top = [x for x in loop.body if isinstance(x, ast.If)]
+    if len(top) != 1:
+        raise P.Untranslatable("base64.a85decode: if chain expected")
+    t = top[0].test       # b'!'[0] <= x <= b'u'[0]
+    def byte0(e):
+        if (isinstance(e, ast.Subscript) and isinstance(e.value, ast.Constant) and isinstance(e.value.value, bytes)
+                and isinstance(e.slice, ast.Constant) and e.slice.value == 0):
+            return e.value.value[0]
+        raise P.Untranslatable("base64.a85decode: b'c'[0] expected")
+    if not (isinstance(t, ast.Compare) and len(t.ops) == 2 and all(isinstance(o, ast.LtE) for o in t.ops)):
+        raise P.Untranslatable("base64.a85decode: digit range test")
+    out.append(f"def a85IsDigit (x : Nat) : Bool := (decide ({byte0(t.left)} ≤ x) && decide (x ≤ {byte0(t.comparators[1])}))\n")
+    inner = [x for x in top[0].body if isinstance(x, ast.If)]
+    if len(inner) != 1:
+        raise P.Untranslatable("base64.a85decode: `if len(curr) == N` expected")
+    g = inner[0].test
+    if not (isinstance(g, ast.Compare) and isinstance(g.ops[0], ast.Eq) and isinstance(g.comparators[0], ast.Constant)):
+        raise P.Untranslatable("base64.a85decode: group length test")
+    out.append(f"def A85_GROUP : Nat := {g.comparators[0].value}\n")
+    accs = [x.value for x in ast.walk(inner[0]) if isinstance(x, ast.Assign) and isinstance(x.targets[0], ast.Name)
+            and x.targets[0].id == "acc" and isinstance(x.value, ast.BinOp)]
+    if len(accs) != 1:
+        raise P.Untranslatable("base64.a85decode: acc = 85 * acc + (x - 33) expected")
+    out.append(nat_def("a85Step", accs[0], ["acc", "x"]))
+    z = top[0].orelse[0] if top[0].orelse and isinstance(top[0].orelse[0], ast.If) else None
+    if z is None or not (isinstance(z.test, ast.Compare) and isinstance(z.test.ops[0], ast.Eq)):
+        raise P.Untranslatable("base64.a85decode: `elif x == b'z'[0]` expected")
+    out.append(f"def A85_Z : Nat := {byte0(z.test.comparators[0])}\n")
+    zs = [c.args[0].value for st in z.body for c in ast.walk(st) if isinstance(c, ast.Call) and len(c.args) == 1
+          and isinstance(c.args[0], ast.Constant) and isinstance(c.args[0].value, bytes)]
+    if len(zs) != 1:
+        raise P.Untranslatable("base64.a85decode: z group output")
+    out.append("def A85_ZGROUP : Bytes := " + P.lean_bytes(zs[0]) + "\n")
+    pads = [x.value for x in fn.body if isinstance(x, ast.Assign) and isinstance(x.targets[0], ast.Name)
+            and x.targets[0].id == "padding"]
+    if len(pads) != 1 or not (isinstance(pads[0], ast.BinOp) and isinstance(pads[0].op, ast.Sub)
+                               and isinstance(pads[0].left, ast.Constant)):
+        raise P.Untranslatable("base64.a85decode: padding = 4 - len(curr) expected")
+    out.append(f"def a85Padding (ncurr : Nat) : Nat := ({pads[0].left.value} - ncurr)\n")
+
+
 def generate(lean_dir: str):
     out = [P.HEADER.format(src="pdfminer/utils.py, pdfminer/pdftypes.py, pdfminer/lzw.py, pdfminer/runlength.py, pdfminer/pdfparser.py, pdfminer/ascii85.py", ns="Filters")]
     mod = P.parse_file("pdfminer/utils.py")
@@ -466,6 +537,7 @@ def generate(lean_dir: str):
     gen_parser(out)
     gen_predictor_dispatch(out, tmod)
     gen_ascii85(out)
+    gen_cpython_a85(out)
     out.append("\nend PdfVerif.Gen.Filters\n")
     path = os.path.join(lean_dir, "PdfVerif", "Gen", "Filters.lean")
     P.write_if_changed(path, "".join(out))
